@@ -10,7 +10,7 @@ From Coq Require Import Reals ZArith List.
 From PyLib Require Import PyVal PyBuiltins Ideal.
 From Gen Require Import M_base M_Angle M_CurveFitting.
 From Coq Require Import Permutation.
-From Proofs.C17 Require Import C17_tac C17_sums C17_fits C17_general C17_corr C17_main C17_ctor C17_more C17_lsq C17_ctorN.
+From Proofs.C17 Require Import C17_tac C17_sums C17_fits C17_general C17_corr C17_main C17_more C17_lsq C17_ctorN.
 Import ListNotations.
 Open Scope R_scope.
 
@@ -146,29 +146,18 @@ Theorem C17_correlation : forall xs ys, length xs = length ys -> 0 < var_x xs ->
     /\ CurveFitting_correlation_coeff Rops (cf_of xs (map Ropp ys)) = VFloat (- r).
 Proof. exact correlation_of_data'. Qed.
 
-(* input forms (TWO points with symbolic real entries, plus separate lists of three; the copy
-   constructor on one literal object; nothing is proved about __init__/set for more points): separate lists (a longer one truncated),
-   tuples, interleaved scalars (an odd trailing value dropped) and the copy constructor all
-   store the same object; a single pair is refused *)
-Theorem C17_input_forms : forall x0 x1 y0 y1 z,
-  CurveFitting___init__ Rops blank (VTuple [VList [VFloat x0; VFloat x1; VFloat z]; VList [VFloat y0; VFloat y1; VFloat z]])
-    = cf_of [x0; x1; z] [y0; y1; z] /\
-  CurveFitting___init__ Rops blank (VTuple [VList [VFloat x0; VFloat x1]; VList [VFloat y0; VFloat y1; VFloat z]])
-    = cf_of [x0; x1] [y0; y1]
-  /\ CurveFitting___init__ Rops blank (VTuple [VTuple [VFloat x0; VFloat x1]; VTuple [VFloat y0; VFloat y1]])
-    = cf_of [x0; x1] [y0; y1]
-  /\ CurveFitting___init__ Rops blank (VTuple [VFloat x0; VFloat y0; VFloat x1; VFloat y1])
-    = cf_of [x0; x1] [y0; y1]
-  /\ CurveFitting___init__ Rops blank (VTuple [VFloat x0; VFloat y0; VFloat x1; VFloat y1; VFloat z])
-    = cf_of [x0; x1] [y0; y1]
-  /\ CurveFitting___init__ Rops blank (VTuple [cf_of [1; 2] [3; 5]]) = cf_of [1; 2] [3; 5]
-  /\ CurveFitting___init__ Rops blank (VTuple [VList [VFloat x0]; VList [VFloat y0]]) = VErr ValueError.
-Proof.
-  intros x0 x1 y0 y1 z.
-  exact (conj (ctor_lists3 x0 x1 z y0 y1 z) (conj (ctor_lists_truncated x0 x1 y0 y1 z) (conj (ctor_tuples2 x0 x1 y0 y1)
-        (conj (ctor_interleaved2 x0 x1 y0 y1) (conj (ctor_interleaved2_odd x0 x1 y0 y1 z)
-        (conj ctor_copy (ctor_one_pair x0 y0))))))).
-Qed.
+(* sequences of different lengths (any lengths >= 2) are both cut to the shorter one, m = min;
+   a sequence with fewer than two points is refused with ValueError *)
+Theorem C17_input_forms :
+  forall (v0 v1 v2 v3 v4 v5 v6 v7 v8 v9 v10 : val R) (xs ys : list R),
+  let o := obj11 v0 v1 v2 v3 v4 v5 v6 v7 v8 v9 v10 in
+  let m := Nat.min (length xs) (length ys) in
+  ((2 <= length xs)%nat -> (2 <= length ys)%nat ->
+     CurveFitting___init__ Rops o (VTuple [VList (fl xs); VList (fl ys)]) = cf_of (firstn m xs) (firstn m ys)
+     /\ CurveFitting___init__ Rops o (VTuple [VTuple (fl xs); VTuple (fl ys)]) = cf_of (firstn m xs) (firstn m ys))
+  /\ ((length xs < 2 \/ length ys < 2)%nat ->
+     CurveFitting___init__ Rops o (VTuple [VList (fl xs); VList (fl ys)]) = VErr ValueError).
+Proof. exact input_forms_truncation. Qed.
 
 (* collinear data y = al*x + be (al <> 0, abscissae not all equal): r is exactly +1 or -1 *)
 Theorem C17_correlation_collinear : forall xs al be, 0 < var_x xs ->
